@@ -35,14 +35,18 @@ theorem va_step (t : ATy) (ogp ofp top off : Nat) (hok : aggSizeOk t = true) (hi
   | arr e n => simp [aggSizeOk] at hok
   | agg u sz al ms =>
     have hmin := structInRegs_min (.agg u sz al ms) ogp ofp
+    by_cases hz : sz = 0
+    · subst hz
+      simp [offsetStep, vaCountStep, refStep, ATy.size, structInRegs]
+    have hpos0 : 0 < sz := by omega
     simp only [offsetStep, vaCountStep, refStep, pushSlots, ATy.size, alignTo]
     by_cases h16 : sz ≤ 16
     · simp only [h16, if_true, true_and]
       cases hok' : (structInRegs (.agg u sz al ms) ogp ofp).1
       · simp; omega
-      · obtain ⟨hpos, _, _⟩ := aggSizeOk_agg hok h16
+      · obtain ⟨hpos, _, _⟩ := aggSizeOk_agg hok h16 hpos0
         simp only [↓reduceIte]
-        simp only [structInRegs, ATy.size, b2n, GP_MAX_eq, FP_MAX_eq] at hok' ⊢
+        simp only [structInRegs, ATy.size, b2n, GP_MAX_eq, FP_MAX_eq, hz, if_false] at hok' ⊢
         by_cases e1 : hasFlonum1 (.agg u sz al ms) = true <;> by_cases e2 : hasFlonum2 (.agg u sz al ms) = true <;>
           by_cases h8 : sz > 8 <;> simp [e1, e2, h8] at hok' ⊢ <;> omega
     · simp [h16]; omega
